@@ -511,9 +511,78 @@ def run(ctx: RuleContext, p: Program) -> None:
     ctx.try_rule(gen.rule_border, p, tcs, 'BORDER')
     ctx.require_min('BORDER', 68)
     ctx.try_rule(rule_pop_self, p, 'POP-SELF')
+    ctx.try_rule(rule_pop_value, p, 'POP-VALUE')
+    from . import claimorder
+    ctx.try_rule(claimorder.rule_splice_order, p, 'SPLICE-ORDER')
     ctx.try_rule(rule_own_tree, p, 'OWN-TREE')
     from .c19 import rule_detach_gate
     ctx.try_rule(rule_detach_gate, p, 'DETACH-GATE')
     ctx.not_decided += ['nesting / non-overlap of child spans (runtime)', 'single ownership of every significant token (runtime)',
                         'that every tree leaf is currently in the store (runtime)']
     ctx.assumptions += ['reattach(store) re-binds a whole subtree (COVER-REATTACH)', 'tokens need no reattach (their store is their handle)']
+
+
+# ====================================================================== POP-VALUE (added after seeded round 3)
+def rule_pop_value(ctx: RuleContext, p: Program, rid: str) -> None:
+    ctx.rule(rid, 'RepeatedMetaItemWrapper.pop(key) hands back a self-contained value: for every model class that the value view '
+                  'preserves (MetaRawValue minus the classes optional_meta_value_property converts to plain values) the rest of the popped '
+                  'item is removed from the value\'s store on both sides -- item.first_token..get_prev(value.first_token) and '
+                  'get_next(value.last_token)..item.last_token -- under a guard that covers all of those classes')
+    from .presence import Typer
+    ty = Typer(p)
+    mv = p.module('models.meta_value')
+    mvi = p.module('models.meta_value_internal')
+    raw = ty.ann(mv, ast.Name(id='MetaRawValue', ctx=ast.Load()))
+    if raw is None or len(raw.classes) < 5:
+        raise AnalysisError('POP-VALUE: MetaRawValue does not resolve to its classes')
+    getter = p.method(p.cls('optional_meta_value_property', 'models.meta_value_internal'), '__get__', inherited=False)
+    converted: set[ClassInfo] = set()
+    for c in walk_no_nested(getter.node):
+        if isinstance(c, ast.Call) and norm(c.func) == 'isinstance' and len(c.args) == 2:
+            t = ty.ann(mvi, c.args[1])
+            if t is not None:
+                converted |= set(t.classes)
+    preserved = sorted(raw.classes - converted, key=lambda c: c.name)
+    if len(preserved) < 3:
+        raise AnalysisError(f'POP-VALUE: only {len(preserved)} preserved value classes derived')
+    w = p.cls('RepeatedMetaItemWrapper', 'models.meta_item_internal')
+    f = p.method(w, 'pop', inherited=False)
+    site = 'models.meta_item_internal:RepeatedMetaItemWrapper.pop'
+    guards = [i for i in ast.walk(f.node) if isinstance(i, ast.If) and any(
+        isinstance(c, ast.Call) and norm(c.func) == 'isinstance' for c in ast.walk(i.test))
+        and any(isinstance(c, ast.Call) and isinstance(c.func, ast.Attribute) and c.func.attr == 'remove' for c in ast.walk(i))]
+    if len(guards) != 1:
+        raise AnalysisError(f'POP-VALUE: {len(guards)} guarded strip blocks in pop (1 confirmed by hand)')
+    g = guards[0]
+    covered: set[ClassInfo] = set()
+    for c in ast.walk(g.test):
+        if isinstance(c, ast.Call) and norm(c.func) == 'isinstance' and len(c.args) == 2:
+            t = ty.ann(f.module, c.args[1])
+            if t is None:
+                raise AnalysisError(f'POP-VALUE: guard class {norm(c.args[1])} does not resolve')
+            covered |= set(t.classes)
+    missing = [k.name for k in preserved if not any(k.is_subclass_of(c) for c in covered)]
+    ctx.check(not missing, rid, site, f'guard {norm(g.test)[:70]}',
+              f'the strip of the popped item is guarded by `{norm(g.test)[:90]}`, which leaves out {missing}: a value of that class is returned '
+              f'still embedded in the popped item\'s store (its first/last tokens are not the store ends, key / indent / end-of-line tokens '
+              f'are owned by no leaf), so the node pop() returns is not a self-contained tree and cannot be inserted elsewhere',
+              f'{f.module.relpath}:{g.lineno}', note=f'covers {[k.name for k in preserved]}')
+    removes = [c for c in ast.walk(g) if isinstance(c, ast.Call) and isinstance(c.func, ast.Attribute) and c.func.attr == 'remove' and len(c.args) == 2]
+    env: dict[str, str] = {}
+    for n_ in ast.walk(g):
+        if isinstance(n_, ast.NamedExpr):
+            env[n_.target.id] = norm(n_.value)
+        elif isinstance(n_, ast.Assign) and len(n_.targets) == 1 and isinstance(n_.targets[0], ast.Name):
+            env[n_.targets[0].id] = norm(n_.value)
+    vname = next((norm(c.args[0]) for c in ast.walk(g.test) if isinstance(c, ast.Call) and norm(c.func) == 'isinstance'), 'value')
+
+    def res(e: ast.AST) -> str:
+        t = norm(e)
+        return env.get(t, t)
+    pre = any(res(c.args[0]).endswith('.first_token') and not res(c.args[0]).startswith(vname) and res(c.args[1]).endswith(f'get_prev({vname}.first_token)')
+              for c in removes)
+    suf = any(res(c.args[0]).endswith(f'get_next({vname}.last_token)') and res(c.args[1]).endswith('.last_token') and not res(c.args[1]).startswith(vname)
+              for c in removes)
+    ctx.check(pre and suf and len(removes) == 2, rid, site + ': strip', f'{[norm(c)[:50] for c in removes]}',
+              'the strip does not remove exactly item.first_token..get_prev(value.first_token) and get_next(value.last_token)..item.last_token',
+              f'{f.module.relpath}:{g.lineno}', note='prefix and suffix of the item removed')
